@@ -30,6 +30,7 @@ from ..interp import (AbstractValue, Interp, Oracle, Obj, Unknown, enumerate_pat
 from ..model import AnalysisError, ClassInfo, loc, walk_function, PKG
 from ..spec import interrupt as spec
 from .. import config as cfgmod
+from .. import templates as T
 
 EXPLANATION = (
     "Set agreement and decision-table agreement: the classes that can be in a block token list (all "
@@ -192,8 +193,11 @@ def rule_cond(ctx, rep):
 
 def _cursor_state(w):
     """Position of a FileWrapper object, whatever its cursor field is called (sum of its int fields that change)."""
-    vals = [v for k, v in sorted(w.attrs.items()) if isinstance(v, int) and not isinstance(v, bool) and k != 'start_line']
-    return vals[0] if vals else None
+    if isinstance(w.attrs.get('_index'), int):
+        return w.attrs['_index']
+    vals = [v for k, v in sorted(w.attrs.items()) if isinstance(v, int) and not isinstance(v, bool)
+            and k != 'start_line' and 'anchor' not in k]
+    return sum(vals) if vals else None
 
 
 def rule_used(ctx, rep):
@@ -252,6 +256,26 @@ def rule_used(ctx, rep):
             per['cur'] = idx
             per[idx].append(name)
         consulted_lines = [k for k in per if isinstance(k, int)]
+        # a line the paragraph keeps as continuation text was looked at by the predicates first
+        from . import c13 as _c13
+        kept = []
+
+        def strings(v):
+            if isinstance(v, AbsStr):
+                j_ = _c13.line_index(v.prov)
+                if j_ is not None:
+                    kept.append(j_)
+            elif isinstance(v, (list, tuple)):
+                for x in v:
+                    strings(x)
+        strings(r)
+        cursor_of = {}          # line about to be read -> cursor state logged when the predicates were asked about it
+        for k in consulted_lines:
+            cursor_of[k] = True
+        for j_ in sorted(set(kept)):
+            if j_ >= 1 and not any(isinstance(k, int) and k == j_ - 1 for k in consulted_lines) \
+                    and not any(isinstance(k, tuple) and j_ - 1 in k for k in consulted_lines):
+                problems.add('a line is taken as continuation text without the interruption predicates having been consulted about it')
         # which continuation lines did the reader look at? those whose blank test was decided non-blank
         for idx in consulted_lines:
             seq = per[idx]
@@ -534,6 +558,82 @@ def rule_fence_close(ctx, rep):
     rep.floor(rule, n, 20)
 
 
+def rule_tight_html(ctx, rep):
+    """How tight and loose lists and block quotes compose in the HTML written from a tree (CommonMark 5.3: the
+    paragraphs of a tight list's items are not wrapped in <p>; everywhere else - in a loose list, and in a block quote
+    even inside a tight list - they are): HtmlRenderer.render is folded on small trees built from token objects, and
+    each paragraph's text must come out wrapped or bare as the rule says."""
+    model = ctx.model
+    rule = 'R-TIGHT-HTML'
+    rep.rule(rule, 'paragraphs are bare exactly when they are direct children of a tight list item, whatever encloses the list')
+    cfg = [c for c in ctx.configs() if c.label == 'HtmlRenderer' and not c.options][0]
+    cls = {n: model.cls('block_token.' + n) for n in ('List', 'ListItem', 'Quote', 'Paragraph', 'Document')}
+    raw = model.cls('span_token.RawText')
+
+    def P(text):
+        return Obj(cls['Paragraph'], {'_children': [Obj(raw, {'content': text})], 'children': None})
+
+    def build(node):
+        kind = node[0]
+        if kind == 'p':
+            o = Obj(cls['Paragraph'], {})
+            kids = [Obj(raw, {'content': node[1]})]
+        elif kind == 'quote':
+            o = Obj(cls['Quote'], {})
+            kids = [build(x) for x in node[1:]]
+        elif kind in ('tight', 'loose'):
+            o = Obj(cls['List'], {'loose': kind == 'loose', 'start': None})
+            kids = [build(('item', kind == 'loose') + tuple(x)) for x in node[1:]]
+        elif kind == 'item':
+            o = Obj(cls['ListItem'], {'loose': node[1], 'leader': '-', 'indentation': 0, 'prepend': 2})
+            kids = [build(x) for x in node[2:]]
+        else:
+            raise AnalysisError('tree node %r' % (kind,))
+        o.attrs['_children'] = kids
+        for k in kids:
+            k.attrs['_parent'] = o
+        return o
+    trees = [
+        ('a paragraph in a tight list', ('tight', [('p', 'X')]), {'X': False}),
+        ('a paragraph in a loose list', ('loose', [('p', 'X')]), {'X': True}),
+        ('a quoted paragraph in a tight list', ('tight', [('quote', ('p', 'X'))]), {'X': True}),
+        ('a tight list in a quote', ('quote', ('tight', [('p', 'X')])), {'X': False}),
+        ('a loose list in an item of a tight list', ('tight', [('p', 'X'), ('loose', [('p', 'Y')])]), {'X': False, 'Y': True}),
+        ('a paragraph after a quote in an item of a tight list', ('tight', [('quote', ('p', 'X')), ('p', 'Z')]), {'X': True, 'Z': False}),
+        ('a tight list in an item of a loose list', ('loose', [('p', 'X'), ('tight', [('p', 'Y')])]), {'X': True, 'Y': False}),
+        ('a paragraph after a tight list in a quote', ('quote', ('tight', [('p', 'X')]), ('p', 'Z')), {'X': False, 'Z': True}),
+    ]
+    hit = cfg.cls.lookup('render')
+    n = 0
+    bad = []
+    for what, tree, want in trees:
+        rep.instance(rule)
+        it = Interp(model, loop_bound=8)
+        it.reset_run(Oracle())
+        r = T.clone_obj(cfg.obj)
+        try:
+            out = it.call_function(hit[1], [r, build(tree)], {})
+        except Raised as e:
+            out = 'raises %s' % e.exc.kind
+        got = {}
+        if isinstance(out, str) and not out.startswith('raises '):
+            for text in want:
+                got[text] = ('<p>%s</p>' % text) in out if text in out else None
+        n += 1
+        ok = got == want
+        rep.obligation(rule, ok, {'tree': what, 'wrapped in <p>': got, 'rule': want, 'html': out if not ok else None})
+        if not ok:
+            bad.append((what, got, want, out))
+    if bad:
+        what, got, want, out = bad[0]
+        rd = hit[1]
+        rep.find(rule, 'html_renderer.HtmlRenderer', 'tree:%s' % what,
+                 'for %s the HTML renderer writes %r: paragraphs wrapped in <p> are %s, the rule gives %s (%d of %d trees differ)'
+                 % (what, out, got, want, len(bad), len(trees)), loc(model.unit_of(cfg.cls), cfg.cls.node),
+                 witness='- > q\n- b')
+    rep.floor(rule, n, 8)
+
+
 def rule_def_account(ctx, rep):
     """Link reference definitions followed directly by other content: Footnote.read joins the lines up to
     the next blank line, scans definitions, and must hand back exactly the lines the definitions did not
@@ -673,6 +773,7 @@ def run(ctx):
     rule_loose_signal(ctx, rep)
     rule_last_item_loose(ctx, rep)
     rule_fence_close(ctx, rep)
+    rule_tight_html(ctx, rep)
     # the cursor protocol the readers' hand-back arithmetic rests on (shared with C13)
     from . import c13
     c13.rule_filewrapper(ctx, rep)
